@@ -327,7 +327,7 @@ PLANS["C14"] = {
              "(non-NULL, terminated, library text for every library code); (d) the same under ASan+UBSan. distinct "
              "= distinct (variant, suite) reuse cells + strerror texts + schedule states."),
     "floors": {"quick": {"template_reuse_jobs": 5000, "strerror_calls": 300000, "desc_checks": 100000,
-                         "errno_checks": 300000}},
+                         "errno_checks": 300000, "custom_failure_jobs": 1500}},
     "assumptions": ["length fields of the descriptor are not compared (CMAC rewrites msg_len_to_hash into bits; the "
                     "property does not list lengths)", "u.SNOW_V_AEAD.reserved is documented scratch space"],
 }
